@@ -21,10 +21,13 @@ pub enum Step {
     WinOver(&'static str, u8, &'static str), // write on `side` some content whose BLAKE3 beats the given content at path
     NormMtime,                          // give EVERY file of both trees one and the same modification time, long in the past
     Leftover(u8, &'static str, &'static str), // a staging file `<path>.copia-tmp` left by a killed run (partial bytes, recent mtime)
+    ReplaceDirByFile(u8, &'static str, &'static str), // remove the directory at path (with everything in it) on one side and write a regular file there
     LowLoser(&'static str, u8),         // divergent edit at path: side A gets content whose BLAKE3 starts with n zero hex digits (the loser), side B content whose BLAKE3 starts with f
 }
 use Step::*;
 
+/// a legal 250-byte file name: `<name>.copia-tmp` exceeds NAME_MAX, so staging a copy of it fails
+const LONG_NAME: &str = "nnnnnnnnnnnnnnnnnnnnnnnnnnnnnnnnnnnnnnnnnnnnnnnnnnnnnnnnnnnnnnnnnnnnnnnnnnnnnnnnnnnnnnnnnnnnnnnnnnnnnnnnnnnnnnnnnnnnnnnnnnnnnnnnnnnnnnnnnnnnnnnnnnnnnnnnnnnnnnnnnnnnnnnnnnnnnnnnnnnnnnnnnnnnnnnnnnnnnnnnnnnnnnnnnnnnnnnnnnnnnnnnnnnnnnnnnnnnnnnnnnnnnnnnnn";
 pub fn scenarios() -> Vec<(&'static str, Vec<Step>)> {
     vec![
         ("create-propagate-modify", vec![W(0, "f", "v1"), S, W(0, "f", "v2"), S, W(1, "f", "v3"), S, Dry]),
@@ -51,6 +54,12 @@ pub fn scenarios() -> Vec<(&'static str, Vec<Step>)> {
         ("conflict-copy-name-leading-zero (C06)", vec![LowLoser("f", 1), S, S]),
         ("conflict-copy-name-two-leading-zeros (C06)", vec![W(0, "d/f", "base"), S, LowLoser("d/f", 2), S, S, Dry]),
         ("conflict-copy-name-three-leading-zeros (C06)", vec![W(0, "f", "base"), S, LowLoser("f", 3), S]),
+        ("one-sided-create-whose-delivery-fails-is-not-deleted-by-the-next-run", vec![W(0, "ok", "fine"), S, W(0, LONG_NAME, "created on A only"), S, S, S]),
+        ("one-sided-create-on-B-whose-delivery-fails", vec![W(1, "ok", "fine"), S, W(1, LONG_NAME, "created on B only"), S, S]),
+        ("directory-replaced-by-a-file", vec![W(0, "x/y", "inner"), W(0, "keep", "k"), S, ReplaceDirByFile(0, "x", "now a file"), S, S]),
+        ("file-over-a-leftover-empty-directory", vec![W(0, "d/f", "v1"), S, D(0, "d/f"), S, ReplaceDirByFile(0, "d", "a file named d"), S, S]),
+        ("equal-size-equal-old-mtime-one-sided-edit (C18: only content decides)", vec![W(0, "f", "base"), S, W(1, "f", "edit"), NormMtime, S, S]),
+        ("equal-size-equal-old-mtime-first-run (C18: only content decides)", vec![W(0, "f", "aaaa"), W(1, "f", "bbbb"), W(0, "g", "same"), W(1, "g", "same"), NormMtime, S, S]),
         ("archive-only-bak", vec![W(0, "keep", "k1"), S, W(0, "x", "x1"), S, D(1, "keep"), ArchiveFault(5), S]),
         ("equal-size-equal-mtime-edit (C06 mtime independence)", vec![W(0, "f", "aaaa"), W(0, "g", "keep"), S, W(0, "f", "bbbb"), NormMtime, S, S, Dry]),
         ("equal-size-equal-mtime-conflict (C06 mtime independence)", vec![W(0, "f", "base"), S, W(0, "f", "aaa1"), W(1, "f", "bbb2"), NormMtime, S, S]),
@@ -134,6 +143,7 @@ pub fn run_history_all(name: &str, steps: &[Step]) -> Vec<String> {
                 let target = blake3::hash(other.as_bytes());
                 for i in 0..4096 { let c = format!("winner-{i}"); if blake3::hash(c.as_bytes()).as_bytes() > target.as_bytes() { let _ = std::fs::write(env.side(*s).join(p), c); break; } }
             }
+            ReplaceDirByFile(sd, p, c) => { let f = env.side(*sd).join(p); let _ = std::fs::remove_dir_all(&f); let _ = std::fs::write(&f, c); }
             LowLoser(p, zeros) => {
                 let z = *zeros as usize;
                 let (fa, fb) = (env.side(0).join(p), env.side(1).join(p));
@@ -217,6 +227,13 @@ pub fn run_history_all(name: &str, steps: &[Step]) -> Vec<String> {
                         }
                     } }
                 }
+                // C18: the decision for a path depends on the (BLAKE3, type) of its versions only: two different byte strings at one
+                // path are never "identical", whatever their lengths and modification times
+                if completed { for (p, va) in ta.iter() { if let Some(vb) = tb.get(p) {
+                    if va != vb && !p.ends_with(".copia-tmp") && na.get(p) == Some(va) && nb.get(p) == Some(vb) {
+                        bad!(format!("[{name}] step {si}: `{p}` held different bytes on the two sides ({} and {} bytes) and the completed run left both as they were: they were taken for identical, so something other than content (size, mtime) entered the decision (C18)", va.len(), vb.len()));
+                    }
+                } } }
                 if completed {
                     // C06: converged, recorded state == tree, idempotent
                     if na != nb { let d: BTreeSet<&String> = na.keys().chain(nb.keys()).filter(|k| na.get(*k) != nb.get(*k)).collect(); bad!(format!("[{name}] step {si}: trees differ after a completed run at {d:?} (C06)")); }
@@ -490,5 +507,24 @@ pub fn pair_id_injective() -> Option<String> {
     }
     let h3 = root_pair_hash(Path::new(&b1), Path::new(&a1));
     if h3 == h1 { return Some("root_pair_hash is not order-sensitive (C07)".into()); }
+    // a root reached through a symlink names the directory the link points to NOW: after the link is re-pointed the pair is a
+    // different pair (absolute and relative spellings of the link alike)
+    {
+        let d = std::env::temp_dir().join(format!("copia-verif-pairid-{}", std::process::id()));
+        let _ = std::fs::remove_dir_all(&d);
+        let ok = std::fs::create_dir_all(d.join("releases/v1")).is_ok() && std::fs::create_dir_all(d.join("releases/v2")).is_ok() && std::fs::create_dir_all(d.join("other")).is_ok();
+        let link = d.join("current");
+        let mut res = None;
+        if ok && std::os::unix::fs::symlink("releases/v1", &link).is_ok() {
+            let before = root_pair_hash(&link, &d.join("other"));
+            let _ = std::fs::remove_file(&link);
+            if std::os::unix::fs::symlink("releases/v2", &link).is_ok() {
+                let after = root_pair_hash(&link, &d.join("other"));
+                if before == after { res = Some("root_pair_hash(<abs>/current, <abs>/other) is the same before and after the symlink `current` is re-pointed from releases/v1 to releases/v2: the archive of the OLD pair is found and trusted for a different directory (C07)".to_string()); }
+            }
+        }
+        let _ = std::fs::remove_dir_all(&d);
+        if res.is_some() { return res; }
+    }
     None
 }
